@@ -416,7 +416,10 @@ def run(ctx: Ctx, replay: str | None) -> None:
     ctx.count("overlap_scenarios", sum(1 for r in results if r["overlap"]))
     if ctx.counters.get("explicit_call_failed", 0) > len(results) // 50:
         raise MachineryError("more than 2% of the explicit calls failed: universe construction is broken")
-    for r in (results[0], results[len(results) // 2], results[-1]):
+    rich = [r for r in results if is_nontrivial(r) and not r["ambig"]]
+    ov = [r for r in rich if r["overlap"]]
+    no = [r for r in rich if not r["overlap"]]
+    for r in (no[len(no) // 3: len(no) // 3 + 1] + ov[len(ov) // 2: len(ov) // 2 + 1] + no[-1:]) or results[:2]:
         ctx.sample({"case": {k: v for k, v in r["case"].items() if k != "expected"}, "sets": r["twin"],
                     "overlap": r["overlap"], "variants": r["variants"]})
 
